@@ -39,6 +39,16 @@ type histOp struct {
 	Val     string   `json:"val"` // hex of little-endian element bytes
 	Raw     bool     `json:"raw"`
 	H       *int     `json:"h"` // which handle of Path to use: index into the handles opened so far (nil = the latest)
+	// extended dataset kinds (hist_ext.go)
+	ADims   []uint64          `json:"adims"`   // array datatypes: WithArrayDims
+	ENames  []string          `json:"enames"`  // enum datatypes: WithEnumValues names
+	EVals   []int64           `json:"evals"`   //                 ... values
+	Tag     *string           `json:"tag"`     // opaque tag (nil = "verif")
+	Vals    []string          `json:"vals"`    // variable-length write: one hex string per element
+	Members []histMember      `json:"members"` // mkcompound
+	CSize   uint32            `json:"csize"`   // mkcompound: total size of one record
+	Enc     string            `json:"enc"`     // mkcompound: "fields" | "v3" | "v1"
+	Links   map[string]string `json:"links"`   // mkdense / mkgrouplinks
 }
 
 type histCase struct {
@@ -54,6 +64,7 @@ type opResult struct {
 	OK    bool   `json:"ok"`
 	Err   string `json:"err,omitempty"`
 	Panic string `json:"panic,omitempty"`
+	Note  string `json:"note,omitempty"` // an API observation that contradicts the call's own result (e.g. GroupWriter.Path)
 }
 
 var dtypeByName = map[string]hdf5.Datatype{
@@ -188,6 +199,7 @@ type histRun struct {
 	grp     map[string]*hdf5.GroupWriter
 	dtypeOf map[string]string
 	strsize map[string]uint32
+	note    string
 }
 
 // handle selects the handle an operation asked for with "h" (an earlier OpenDataset/CreateDataset result
@@ -237,22 +249,18 @@ func (h *histRun) apply(op *histOp) (err error) {
 		g, e := h.fw.CreateGroup(op.Path)
 		if e == nil && g != nil {
 			h.grp[op.Path] = g
+			if g.Path() != op.Path {
+				h.note = fmt.Sprintf("GroupWriter.Path() = %q for the group created as %q", g.Path(), op.Path)
+			}
 		}
 		return e
 	case "mkds":
 		if h.fw == nil {
 			return fmt.Errorf("harness: no open writer")
 		}
-		dt, ok := dtypeByName[op.Dtype]
-		if !ok {
-			return fmt.Errorf("harness: unknown dtype %q", op.Dtype)
-		}
-		var opts []hdf5.DatasetOption
-		if op.Dtype == "string" {
-			opts = append(opts, hdf5.WithStringSize(op.StrSize))
-		}
-		if op.Dtype == "opaque" {
-			opts = append(opts, hdf5.WithOpaqueTag("verif", op.StrSize))
+		dt, opts, e0 := histDatatype(op)
+		if e0 != nil {
+			return e0
 		}
 		if op.Chunk != nil {
 			opts = append(opts, hdf5.WithChunkDims(op.Chunk))
@@ -296,6 +304,12 @@ func (h *histRun) apply(op *histOp) (err error) {
 		if e != nil {
 			return e
 		}
+		if op.Vals != nil {
+			if op.Dtype == "" {
+				op.Dtype = h.dtypeOf[op.Path]
+			}
+			return histWriteVlen(d, op)
+		}
 		raw, e := hex.DecodeString(op.Val)
 		if e != nil {
 			return fmt.Errorf("harness: bad hex: %w", e)
@@ -307,7 +321,7 @@ func (h *histRun) apply(op *histOp) (err error) {
 		if dtn == "" {
 			dtn = h.dtypeOf[op.Path]
 		}
-		v, e := typedSlice(dtn, raw, h.strsize[op.Path])
+		v, e := typedSlice(histBaseName(dtn), raw, h.strsize[op.Path])
 		if e != nil {
 			return e
 		}
@@ -353,6 +367,37 @@ func (h *histRun) apply(op *histOp) (err error) {
 			return e
 		}
 		return d.WriteAttribute(string(nameb), v)
+	case "rebalance": // explicit rebalancing calls: never change the logical content
+		if h.fw == nil {
+			return fmt.Errorf("harness: no open writer")
+		}
+		if op.Path == "" {
+			switch op.Kind {
+			case "disable":
+				h.fw.DisableRebalancing()
+				if h.fw.RebalancingEnabled() {
+					h.note = "RebalancingEnabled() is true after DisableRebalancing()"
+				}
+				return nil
+			case "enable":
+				h.fw.EnableRebalancing()
+				if !h.fw.RebalancingEnabled() {
+					h.note = "RebalancingEnabled() is false after EnableRebalancing()"
+				}
+				return nil
+			}
+			return h.fw.RebalanceAllBTrees()
+		}
+		d, e := h.handle(op)
+		if e != nil {
+			return e
+		}
+		return d.RebalanceAttributeBTree()
+	case "mkcompound", "mkdense", "mkgrouplinks":
+		if h.fw == nil {
+			return fmt.Errorf("harness: no open writer")
+		}
+		return h.applyExt(op)
 	case "hardlink":
 		if h.fw == nil {
 			return fmt.Errorf("harness: no open writer")
@@ -401,10 +446,11 @@ func (h *histRun) applySafe(op *histOp) (res opResult) {
 			res = opResult{Panic: fmt.Sprint(r) + "\n" + st}
 		}
 	}()
+	h.note = ""
 	if err := h.apply(op); err != nil {
-		return opResult{Err: err.Error()}
+		return opResult{Err: err.Error(), Note: h.note}
 	}
-	return opResult{OK: true}
+	return opResult{OK: true, Note: h.note}
 }
 
 // ---------------------------------------------------------------- logical dump
@@ -444,6 +490,13 @@ type objDump struct {
 	Strings  []string   `json:"strings,omitempty"` // hex
 	StrErr   string     `json:"strerr,omitempty"`
 	NStrings int        `json:"nstrings"`
+	DtMsg    string     `json:"dtmsg,omitempty"`    // datatype message as the reader's header parser returns it (hex)
+	Members  []memDump  `json:"members,omitempty"`  // compound: what core.ParseCompoundType (used by ReadCompound) sees
+	MemErr   string     `json:"memerr,omitempty"`
+	Compound []string   `json:"compound,omitempty"` // ReadCompound: one rendered record per element
+	CompErr  string     `json:"comperr,omitempty"`
+	HasComp  bool       `json:"hascomp,omitempty"`  // ReadCompound returned without error
+	Vlen     []string   `json:"vlen,omitempty"`     // variable-length: every element resolved through the library's global heap reader (hex / "!err")
 }
 
 type fileDump struct {
@@ -581,6 +634,7 @@ func dumpFile(path string, nodata bool) (fd fileDump) {
 					s := hex.EncodeToString(raw)
 					od.Raw = &s
 				}
+				dumpExt(f, o, hdr, raw, rerr, &od, nodata)
 			}
 			if vals, err := o.Read(); err != nil {
 				od.ReadErr = err.Error()
@@ -590,7 +644,7 @@ func dumpFile(path string, nodata bool) (fd fileDump) {
 					od.Read[i] = fmt.Sprintf("%016x", math.Float64bits(v))
 				}
 			}
-			if od.Class == int(core.DatatypeString) || od.Class == int(core.DatatypeVarLen) {
+			if od.Class != int(core.DatatypeFixed) && od.Class != int(core.DatatypeFloat) {
 				if strs, err := o.ReadStrings(); err != nil {
 					od.StrErr = err.Error()
 				} else {
